@@ -307,7 +307,7 @@ CLAUSES = {
     'C04': 'at the press of the fired mapping\'s final non-modifier output: every listed modifier down; every other modifier down is physically held and not a trigger, or output of a held modifier-remapping',
     'C05': 'a: foreign keys pressed exactly at their physical press, lifted only at their release or (non-modifier) by a no-repeat firing; b: empty layout is the identity; c: a release lifts only itself / outputs of mappings it triggers, never outputs of mappings remaining in effect; d: protected outputs of mappings staying in effect are not lifted',
     'C06': 'after release_all from any reachable configuration nothing is held; from every distinct stale rest state (all keys released, or after release_all) the real mapper and a fresh mapper return equal StepResults on every continuation (product exploration to pair fixpoint)',
-    'C07': 'after a step firing a Disabled/Special mapping no non-modifier key is held, each output was pressed in the step, and no press is emitted until the next acted press',
+    'C07': 'after a step firing a Disabled/Special mapping no non-modifier key is held, each output was pressed in the step, and no later release event (before the next physical press) emits a press',
     'C08': 'inside the window after an absorbing mapping fired (M held, not pressed again): a: no mapping requiring M fires on other keys; b: M not down when such a press types a non-modifier (unless output by a mapping whose triggers are held); c: same trigger again fires the same mapping; d: re-arming after release+press of M via rule R',
     'C09': 'Repeating{keys,delay,interval} is returned exactly when the fired mapping is Special and equals its fields (delay/interval symbolic); acted steps otherwise return Disabled; ignored steps return NoChange and no events',
     'C19': 'strict fold over all step outputs and over release_all batches from every reachable configuration: press only when up, release only when down',
@@ -333,6 +333,10 @@ def check(prop, tier, seed):
         oc.inconclusive.append('ENGINE-MISMATCH (symbolic violation not reproduced natively): ' + u)
     for m in d['mismatches']:
         oc.inconclusive.append('model/native disagreement: ' + m)
+    for nm, why in d.get('skipped', [])[:3]:
+        oc.inconclusive.append('layout %s could not be encoded: %s' % (nm, why))
+    if not d['layouts']:
+        oc.inconclusive.append('no layout was explored')
     for l in d['layouts']:
         if l.get('error'):
             oc.inconclusive.append('unsupported construct while exploring %s: %s' % (l['name'], l['error']))
